@@ -9,6 +9,8 @@
 #undef atomic_size_t
 #undef mutex
 #undef timed_mutex
+#undef recursive_mutex
+#undef recursive_timed_mutex
 #undef shared_mutex
 #undef shared_timed_mutex
 #undef condition_variable
@@ -28,6 +30,8 @@ namespace vrf {
 using mutex_t = std::verif_mutex;
 using timed_mutex_t = std::verif_timed_mutex;
 using shared_mutex_t = std::verif_shared_mutex;
+using recursive_mutex_t = std::verif_recursive_mutex;
+using recursive_timed_mutex_t = std::verif_recursive_timed_mutex;
 using shared_timed_mutex_t = std::verif_shared_timed_mutex;
 
 // ------------------------------------------------------------------ json helpers
